@@ -172,6 +172,11 @@ def oracle(cmds, snaps):
                 # permission-checked for THAT user): a re-login must not inherit it
                 sig = "C05:relogin-keeps-pending-rename"
                 what = "after %r (%r) the rename source accepted under the previous login is still pending (%s)" % (c, codes, snap["rnfr"])
+        if sig is None and first == "rnto" and finals and finals[0] in (250, 451) and snap["alive"] == "1" and snap["rnfr"] != "n":
+            # RNFR..RNTO pairing: an RNTO that was let through to the backend (not refused by its guards: 503, 550)
+            # consumes the pending rename whatever the backend's answer (250 or 451): a later RNTO needs a new RNFR
+            sig = "C05:rnto-leaves-rename-pending"
+            what = "%r was answered %r and the rename source is still pending (%s): a second RNTO would rename it" % (c, codes, snap["rnfr"])
         if sig is None and first == "retr" and finals == [226] and prev is not None:
             # restart offset applies only to the immediately following transfer
             pass
